@@ -112,6 +112,7 @@ type Task struct {
 	OnExit     func() // lens hook, runs on the task's goroutine when it ends (normally, by panic or by kill)
 
 	gid    uint64 // goroutine of the task
+	parent *Task  // set for goroutines the code under test started itself (Spawn): same simulated process
 	native bool   // blocked (or running again) outside the scheduler's control, see Sim.runTask
 }
 
@@ -165,6 +166,8 @@ type Sim struct {
 	mu          sync.Mutex
 	byGID       map[uint64]*Task
 	natives     atomic.Int32
+	arrived     []*Task       // tasks that came back on their own, not yet collected (under mu)
+	arrive      chan struct{} // poked when arrived grows
 	NativeSeen  int // how often a task was found blocked outside the scheduler's control
 	NativeStuck int // tasks still blocked that way when the run ended
 	// abstract trace hash: (role, op kind, fault kind) at scheduling points
@@ -180,7 +183,7 @@ func New(cfg Config) *Sim {
 	if cfg.MaxSim == 0 {
 		cfg.MaxSim = 24 * time.Hour
 	}
-	return &Sim{cfg: cfg, sched: make(chan *Task), h: fnv.New64a(), ah: fnv.New64a(), byGID: map[uint64]*Task{},
+	return &Sim{cfg: cfg, sched: make(chan *Task), arrive: make(chan struct{}, 1), h: fnv.New64a(), ah: fnv.New64a(), byGID: map[uint64]*Task{},
 		FaultsFired: map[string]int{}, Probes: map[string]int{}, faultUsed: make([]bool, len(cfg.Faults)), start: time.Now()}
 }
 
@@ -211,6 +214,11 @@ func (t *Task) main() {
 		if t.OnExit != nil {
 			t.OnExit()
 		}
+		if t.native {
+			// it had been set aside as natively blocked and ran to its end on its own
+			t.sim.announce(t)
+			return
+		}
 		t.sim.sched <- t
 	}()
 	if t.killNext {
@@ -225,6 +233,48 @@ func (t *Task) closeFiles() {
 		f.Close()
 	}
 	t.files = map[*os.File]struct{}{}
+}
+
+// root is the task that stands for the simulated process t belongs to.
+func (t *Task) root() *Task {
+	for t.parent != nil {
+		t = t.parent
+	}
+	return t
+}
+
+// Spawn stands in for a go statement of the code under test (the driver rewrites them in the scratch copy; the
+// tree has none today). On a simulated task the new goroutine becomes a task of the same simulated process: it
+// runs when the scheduler picks it, its operations count towards the process's planned faults, and it dies with
+// the process. Anywhere else it is a plain go statement.
+func Spawn(fn func()) {
+	s := Cur
+	if s == nil || !s.inTask() {
+		go fn()
+		return
+	}
+	p := s.self()
+	if p == nil || p.Dead {
+		go fn()
+		return
+	}
+	t := s.Go(p.Role, fn)
+	t.parent = p
+	t.counters = p.root().counters // the n-th operation of a kind is counted per process
+	s.Log("spawn", "", fmt.Sprint(t.ID), "")
+}
+
+// killFamily marks every other live task of t's simulated process to be killed at its next resume.
+func (s *Sim) killFamily(t *Task) {
+	r := t.root()
+	for _, x := range s.tasks {
+		if x != t && x.root() == r && x.state != stDone && !x.Dead {
+			x.killNext = true
+			if x.state == stBlocked {
+				x.state = stParked
+			}
+		}
+	}
 }
 
 // Tasks returns the tasks in creation order.
@@ -266,12 +316,13 @@ func (s *Sim) self() *Task {
 		}
 		return s.cur
 	}
-	s.sched <- t // the scheduler notes the arrival (noteForeign): the task is parked from then on
+	s.announce(t) // the scheduler collects the arrival (collect): the task is parked from then on
 	<-t.resume
 	if t.killNext {
 		t.killNext = false
 		t.Dead = true
 		t.closeFiles()
+		t.sim.killFamily(t)
 		panic(killSentinel{t.ID})
 	}
 	return t
@@ -354,6 +405,20 @@ func Point(op Op) Decision {
 // Active reports whether the caller is a simulated task (shim calls are intercepted).
 func Active() bool { return Cur != nil && Cur.inTask() }
 
+// OnTask reports whether the calling goroutine is a live simulated task of the current simulation (found by
+// goroutine id: used by simsync on the contended path only).
+func OnTask() bool {
+	s := Cur
+	if s == nil || !s.inTask() {
+		return false
+	}
+	g := goid()
+	s.mu.Lock()
+	t := s.byGID[g]
+	s.mu.Unlock()
+	return t != nil && !t.Dead && t.state != stDone
+}
+
 // inTask: some task is running - the one the scheduler resumed, or one that was set aside as natively blocked and
 // may be running on its own again (self() sorts out which; nil = the scheduler's own goroutine).
 func (s *Sim) inTask() bool { return s.cur != nil || s.natives.Load() > 0 }
@@ -375,7 +440,7 @@ func (s *Sim) point(op Op) Decision {
 	var fk string
 	for i := range s.cfg.Faults {
 		f := &s.cfg.Faults[i]
-		if s.faultUsed[i] || (f.Task >= 0 && f.Task != t.ID) {
+		if s.faultUsed[i] || (f.Task >= 0 && f.Task != t.root().ID) {
 			continue
 		}
 		if f.Op == "" {
@@ -442,6 +507,7 @@ func (s *Sim) park(t *Task) {
 		t.killNext = false
 		t.Dead = true
 		t.closeFiles()
+		t.sim.killFamily(t)
 		panic(killSentinel{t.ID})
 	}
 }
@@ -462,6 +528,7 @@ func After(d Decision) {
 	t.Dead = true
 	t.Crashed = true
 	t.closeFiles()
+	s.killFamily(t)
 	s.Log("kill", "", "", d.Fired)
 	panic(killSentinel{t.ID})
 }
@@ -506,6 +573,7 @@ func WaitUntil(what string, pred func() bool, wakeAt time.Time) bool {
 		t.killNext = false
 		t.Dead = true
 		t.closeFiles()
+		t.sim.killFamily(t)
 		panic(killSentinel{t.ID})
 	}
 	return pred != nil && pred()
@@ -564,6 +632,7 @@ func (t *Task) ready(now time.Time) bool {
 func (s *Sim) Run() {
 	defer func() { s.NativeStuck = int(s.natives.Load()) }()
 	for {
+		s.collect()
 		now := time.Now()
 		var runnable []*Task
 		if s.last != nil && s.last.ready(now) {
@@ -599,9 +668,8 @@ func (s *Sim) Run() {
 				}
 				tm := time.NewTimer(limit)
 				select {
-				case got := <-s.sched:
+				case <-s.arrive:
 					tm.Stop()
-					s.noteForeign(got)
 					continue
 				case <-tm.C:
 				}
@@ -675,10 +743,9 @@ func (s *Sim) runTask(t *Task) {
 	s.cur = t
 	s.last = t
 	t.resume <- struct{}{}
-	for {
-		var got *Task
+	{
 		if s.cfg.Settle == nil {
-			got = <-s.sched
+			<-s.sched
 		} else {
 			// Inside the bubble the clock moves only when every goroutine is durably blocked. If this timer fires
 			// before the task has come back, the task waits on something the scheduler does not own - a channel,
@@ -687,7 +754,7 @@ func (s *Sim) runTask(t *Task) {
 			// to its next call into this package, where self() hands it back.
 			tm := time.NewTimer(time.Nanosecond)
 			select {
-			case got = <-s.sched:
+			case <-s.sched:
 				tm.Stop()
 			case <-tm.C:
 				t.state = stNative
@@ -699,24 +766,49 @@ func (s *Sim) runTask(t *Task) {
 				return
 			}
 		}
-		if got == t {
-			break
-		}
-		s.noteForeign(got)
 	}
 	s.cur = nil
 }
 
-// noteForeign records that a task which had been set aside as natively blocked has come back: it either parked
-// itself in self() (runnable from now on) or ran to its end.
-func (s *Sim) noteForeign(t *Task) {
-	if t != nil && t.native {
-		t.native = false
-		if t.state == stNative {
-			t.state = stParked
+// announce is called by a task that had been set aside as natively blocked when it comes back: parked in self(),
+// or at its end. It does not talk to the scheduler directly (several may come back at once, in any real order).
+func (s *Sim) announce(t *Task) {
+	s.mu.Lock()
+	s.arrived = append(s.arrived, t)
+	s.mu.Unlock()
+	select {
+	case s.arrive <- struct{}{}:
+	default:
+	}
+}
+
+// collect, at the top of every scheduling step while such tasks exist, lets everything that runs on its own come
+// to rest and takes the tasks that have come back, in task order: from now on they are scheduled like the others.
+func (s *Sim) collect() {
+	if s.natives.Load() == 0 {
+		return
+	}
+	if s.cfg.Settle != nil {
+		s.cfg.Settle()
+	}
+	s.mu.Lock()
+	arr := s.arrived
+	s.arrived = nil
+	s.mu.Unlock()
+	select {
+	case <-s.arrive:
+	default:
+	}
+	sort.Slice(arr, func(i, j int) bool { return arr[i].ID < arr[j].ID })
+	for _, t := range arr {
+		if t.native {
+			t.native = false
+			if t.state == stNative {
+				t.state = stParked
+			}
+			s.natives.Add(-1)
+			s.Log("native-return", "", fmt.Sprint(t.ID), "")
 		}
-		s.natives.Add(-1)
-		s.Log("native-return", "", fmt.Sprint(t.ID), "")
 	}
 }
 
